@@ -622,7 +622,36 @@ func runConfigAcyclic(p *Program, r *RuleResult) {
 			continue
 		}
 		usesFree, recursive, overProcs := false, false, false
-		for _, g := range append([]*ssa.Function{root}, allAnon(root)...) {
+		// the check may be a function with a recursive closure, or a function that sets up a
+		// small state struct and calls a recursive error-returning method on it
+		cluster := append([]*ssa.Function{root}, allAnon(root)...)
+		inCluster := map[*ssa.Function]bool{}
+		for _, g := range cluster {
+			inCluster[g] = true
+		}
+		for _, g := range append([]*ssa.Function{}, cluster...) {
+			for _, c := range p.callsIn(g) {
+				h := c.Common().StaticCallee()
+				if h == nil || inCluster[h] || h.Blocks == nil || h.Pkg == nil || h.Pkg.Pkg.Path() != processPkg || h.Signature.Recv() == nil {
+					continue
+				}
+				res := h.Signature.Results()
+				if res.Len() != 1 || !isErrorType(res.At(0).Type()) {
+					continue
+				}
+				selfRec := false
+				for _, c2 := range p.callsIn(h) {
+					if c2.Common().StaticCallee() == h {
+						selfRec = true
+					}
+				}
+				if selfRec {
+					inCluster[h] = true
+					cluster = append(cluster, h)
+				}
+			}
+		}
+		for _, g := range cluster {
 			for _, prm := range g.Params {
 				if sl, ok := prm.Type().Underlying().(*types.Slice); ok {
 					if n := namedOf(sl.Elem()); n != nil && n.Obj().Name() == "Process" {
@@ -979,4 +1008,66 @@ func runFamilyConsistent(p *Program, r *RuleResult) {
 		}
 	}
 	r.count("transition functions and closures", n)
+}
+
+// R-WATCHDOG-ARMED (C18, C02): the inactivity watchdog never waits for a heartbeat without an
+// alternative.
+func init() {
+	register(&Rule{Name: "R-WATCHDOG-ARMED", Min: 1,
+		Doc: "every receive from the run's heartbeat channel is a case of a select that has another way out (the timer, a done channel, or a default): a bare `<-heartbeat` in the watchdog blocks forever when nothing is running (a program that declares no process), so the run is never cancelled and the command never returns",
+		Run: runWatchdogArmed})
+}
+
+func runWatchdogArmed(p *Program, r *RuleResult) {
+	isHeartbeat := func(v ssa.Value) bool {
+		if _, n, ok := fieldNameOf(v); ok && n == "heartbeat" {
+			return true
+		}
+		if ld, ok := v.(*ssa.UnOp); ok {
+			if _, n, ok := fieldNameOf(ld.X); ok && n == "heartbeat" {
+				return true
+			}
+		}
+		return false
+	}
+	n := 0
+	for _, fn := range p.SrcFuncs {
+		pk := fn.Pkg
+		if pk == nil && fn.Parent() != nil {
+			pk = fn.Parent().Pkg
+		}
+		if pk == nil || pk.Pkg.Path() != processPkg {
+			continue
+		}
+		view := p.View(fn)
+		ord := 0
+		for _, b := range view.Blocks() {
+			for _, in := range view.Instrs(b) {
+				switch x := in.(type) {
+				case *ssa.UnOp:
+					if x.Op == token.ARROW && isHeartbeat(x.X) {
+						n++
+						ord++
+						r.add(fnName(fn), fmt.Sprintf("heartbeat-receive#%d", ord), Violated, p.instrPos(x),
+							"the watchdog waits for a heartbeat with no timer, done channel or default beside it: when no process is running (nothing was declared, or all have finished before this point) it waits forever and the run is never cancelled")
+					}
+				case *ssa.Select:
+					for _, st := range x.States {
+						if st.Dir != types.RecvOnly || !isHeartbeat(st.Chan) {
+							continue
+						}
+						n++
+						ord++
+						construct := fmt.Sprintf("heartbeat-receive#%d", ord)
+						if !x.Blocking || len(x.States) > 1 {
+							r.add(fnName(fn), construct, Holds, p.instrPos(x), "one case of a select with another way out")
+						} else {
+							r.add(fnName(fn), construct, Violated, p.instrPos(x), "the only case of a blocking select")
+						}
+					}
+				}
+			}
+		}
+	}
+	r.count("receives from the heartbeat channel", n)
 }
